@@ -88,6 +88,14 @@ CLAIMED = {
          "pipelines are re-run in subprocesses under three PYTHONHASHSEED values; saves are checked not to disturb flags, dumps or later saves "
          "(testing). F12 (hash-seed-dependent bsln/prop subsetting) repaired by a fix: commit.",
          "Rocq proof of set-invariance and save idempotence/refutation + instrumented save correspondence + hash-seed subprocess sweeps"),
+ "C01": ("Theorems over the save state machine (shared with C16), parametric in every table's codec: a table that was not loaded and "
+         "that no compile side-effect-loads is written byte for byte from the reader whatever else is loaded or compiled "
+         "(untouched_passthrough), a loaded table is written as the encoding of its content, a codec that is lossless on decoded values "
+         "reaches a byte fixed point at the second generation, and decoder-less tables are verbatim. The machine is tied to TTFont.save by the "
+         "instrumented correspondence; the per-table codecs are exercised on the implementation: corpus fonts covering every table tag, "
+         "generated fonts, hand-assembled WOFF at the zlib break-even size, transplanted unknown tables x lazy modes — decoded content, "
+         "second-generation fixed point, pass-through of untouched tables (testing). Known finding F8 (Silf).",
+         "Rocq proof of pass-through/fixed-point over a parametric save machine + instrumented correspondence + recompile sweeps"),
 }
 
 def main():
